@@ -3130,6 +3130,10 @@ int cg_part_read(int fn, int B, int Fam, int G, int P, char *part_name)
     family = cgi_get_family(cg, B, Fam);
     if (family==0) return CG_ERROR;
 
+    if (G<=0 || G>family->ngeos) {
+        cgi_error("Invalid geometry reference number");
+        return CG_ERROR;
+    }
     if (P<=0 || P>family->geo[G-1].npart) {
         cgi_error("Invalid part number");
         return CG_ERROR;
@@ -3258,6 +3262,10 @@ int cg_node_part_read(int G, int P, char *part_name)
         return CG_ERROR;
     }
 
+    if (G<=0 || G>family->ngeos) {
+        cgi_error("Invalid geometry reference number");
+        return CG_ERROR;
+    }
     if (P<=0 || P>family->geo[G-1].npart) {
         cgi_error("Invalid part number");
         return CG_ERROR;
